@@ -19,8 +19,15 @@ def cmdTiming (j : Json) : Except String Json := do
     | some n => pure n
     | none => throw s!"net index {i} out of range"
   let comb := order.filter (·.op.isComb)
+  -- the gate delay function receives the bitwidth of the first argument; `wmod` (default 0 = none)
+  -- adds `width % wmod` to every non-zero per-op delay (what the check's custom functions do)
+  let wmod ← jNat (fieldD j "wmod" (natJson 0))
   let δ : Net → Nat := fun n => match delays.getObjVal? (opChar n.op) with
-    | .ok v => (jNat v).toOption.getD 0
+    | .ok v =>
+      let d := (jNat v).toOption.getD 0
+      match n.op with
+      | .mread _ => d
+      | _ => if d = 0 || wmod = 0 then d else d + b.width (n.args.headD 0) % wmod
     | .error _ => 0
   let t := timingMap δ comb
   let nw := b.wires.size
